@@ -273,12 +273,35 @@ def c17_copy_inside_open_batch():
     return None if not bad else '; '.join(bad)
 
 
+def c03_stale_old_after_class_default_reassigned():
+    """fix e80cc81: `old` of an instance assignment came from the per-instance Parameter copy's snapshot of the class default"""
+    import param
+    class A(param.Parameterized):
+        x = param.Number(1)
+    a = A(); a.param.x            # the per-instance Parameter object now exists
+    A.x = 7
+    log = []
+    a.param.watch(lambda e: log.append((e.old, e.new)), 'x', onlychanged=False)
+    a.x = 9
+    bad = []
+    if log != [(7, 9)]:
+        bad.append(f'a.x read 7, a.x = 9 delivered {log}')
+    b = A(); b.param.x; A.x = 3
+    del log[:]
+    b.param.watch(lambda e: log.append((e.old, e.new)), 'x')
+    b.x = 7                        # a change from 3 (7 was the class default when the copy was made)
+    if log != [(3, 7)]:
+        bad.append(f'b.x read 3, b.x = 7 delivered {log} to a changes-only watcher')
+    return None if not bad else '; '.join(bad)
+
+
 if __name__ == '__main__':
     for f in [c03_slot_watcher_list_mutated, c03_slot_watcher_registered_in_callback, c16_selector_schema_unnamed_object,
               c18_remove_equal_not_identical, c18_extend_iterator, c18_update_mapping, c18_pop_default,
               c05_class_trigger_inherited_event, c05_failed_watch_registers_nothing, c02_rejected_class_assignment_copy, c08_relink_per_instance_false,
               c12_subclass_copy_shares_containers, c17_multi_name_watcher_after_copy, c17_depth2_dependency_copy,
-              c12_instance_copy_of_blanking_parameter, c17_copy_inside_open_batch]:
+              c12_instance_copy_of_blanking_parameter, c17_copy_inside_open_batch,
+              c03_stale_old_after_class_default_reassigned]:
         try: r = f()
         except Exception as e: r = f'demo crashed: {type(e).__name__}: {e}'
         print(f'{f.__name__:44s}', 'DEFECT: ' + r if r else 'ok')
